@@ -142,7 +142,10 @@ def check_probe(ctx, label, files):
     funs, _ = dumps.dump_functions(files)
     by_code = {}
     for f in funs:
-        by_code.setdefault((f["file"], f.get("CODE", "")), f)
+        # two functions of one file can share their bytes and differ in arity (|p| x and || x): the key
+        # includes what the probe reports about the function header
+        h = dumps.head_info(f)
+        by_code.setdefault((f["file"], f.get("CODE", ""), h["arity"] if h else None, h["max_slots"] if h else None), f)
     todo, probes = [], {}
     npoints = 0
     statuses = {}
@@ -156,7 +159,7 @@ def check_probe(ctx, label, files):
                                              "file": r["file"], "program": src, "run": "vharness run --probe --steps 300000 <program>"})
             return False
         for pf in r.get("probe", []) or []:
-            f = by_code.get((r["file"], pf["code"]))
+            f = by_code.get((r["file"], pf["code"], pf.get("arity"), pf.get("max_slots")))
             if f is None:
                 continue       # a standard-library or stub function
             pts = " ".join("%d,%d,%d" % tuple(p) for p in pf["points"])
